@@ -423,6 +423,25 @@ def _inline_block(M, fn, stmts: List[ast.stmt], caller_locals: set, changed: Lis
                 if c_ is call:
                     continue
                 h2 = _resolve_helper(M, fn, c_)
+                if h2 is not None and _simple_helper(h2.node) == "tail" and not isinstance(st, ast.For):
+                    # a guard-clause helper inside the expression: `__r = helper(..)` is put before the statement and expanded there
+                    # (every branch of the helper ends in `__r = <its value>`)
+                    tmp = f"__{h2.node.name.strip('_')}_r_{next(_counter)}"
+                    asg = ast.copy_location(ast.Assign(targets=[ast.Name(id=tmp, ctx=ast.Store())], value=copy.deepcopy(c_)), c_)
+                    ast.fix_missing_locations(asg)
+                    exp = _inline_block(M, fn, [asg], caller_locals, changed, depth + 1)
+                    if len(exp) == 1 and exp[0] is asg:
+                        continue
+                    pre.extend(exp)
+                    caller_locals |= {n.id for s_ in exp for n in ast.walk(s_) if isinstance(n, ast.Name) and isinstance(n.ctx, ast.Store)}
+
+                    class _SwapT(ast.NodeTransformer):
+                        def visit_Call(self, n, c_=c_, tmp=tmp):
+                            if n is c_:
+                                return ast.copy_location(ast.Name(id=tmp, ctx=ast.Load()), n)
+                            return self.generic_visit(n)
+                    st = _SwapT().visit(st)
+                    continue
                 if h2 is not None and _simple_helper(h2.node) == "stmts":
                     mp2 = _bind(h2, c_, pre, dead_names)
                     if mp2 is None:
